@@ -254,6 +254,14 @@ Definition default_config (connect read : Z) : config :=
   mkConfig (mkRetry (Some 10) (Some connect) (Some read) (Some s3_default_status))
            (if s3_default_forcelist_is_glitches then s3_server_glitches else []).
 
+(* the `retries` argument of S3ChunkStore: an int stands for both connect and read retries (_connect_read_tuple), a pair
+   is (connect, read), a urllib3 Retry object is used as it is *)
+Inductive retries_arg := RInt (n : Z) | RPair (c r : Z) | RObj (r : retry) (fl : list Z).
+Definition store_config (a : retries_arg) : config :=
+  match a with RInt n => default_config n n | RPair c r => default_config c r | RObj r fl => mkConfig r fl end.
+(* S3ChunkStore(url) with no `retries` argument at all *)
+Definition default_store : config := store_config (RInt s3_default_retries).
+
 (* ---------- get_chunk with the bucket check on 404 ---------- *)
 Inductive bucket := BFull | BEmpty | BMissing.
 Record chunk_run := mkRun { g_result : result; g_obj_requests : nat; g_bucket_requests : nat; g_verified : bool }.
@@ -291,6 +299,39 @@ Inductive rdb_result := RdbOk (delivered : nat) | RdbNotFound | RdbRaw.
 Definition rdb_fetch (cfg : config) (len : nat) (fs : list outcome) : rdb_result * nat :=
   let '(res, n) := request cfg PObject len [] fs in
   (match res with Ok d => RdbOk d | Err Raw => RdbRaw | Err _ => RdbNotFound end, n).
+
+(* ---------- the other request sites of the public API: put_chunk, is_complete, mark_complete ----------
+   All three go through S3ChunkStore.request with the default `process` (identity) and without stream=True, like the
+   bucket listing: PListing.  `len` is the length of the body of the server's 200 answer (nothing for a PUT and for the
+   empty `complete` marker object). *)
+Definition err_name (e : err) : string :=
+  match e with
+  | Glitch => "S3ServerGlitch" | NotFound => "S3ObjectNotFound" | Auth => "AuthorisationFailed"
+  | Unavail => "StoreUnavailable" | InvalidTok => "InvalidToken" | Raw => ""
+  end.
+Definition put_chunk (cfg : config) (len : nat) (fs : list outcome) : result * nat := request cfg PListing len [] fs.
+
+(* is_complete: `except <s3_is_complete_catches>: return False`; the exceptions of this module derived from that class
+   are s3_chunk_not_found *)
+Inductive complete_res := CTrue | CFalse | CRaise (e : err).
+Definition caught_by_is_complete (e : err) : bool :=
+  String.eqb s3_is_complete_catches "ChunkNotFound" && mem_string (err_name e) s3_chunk_not_found.
+Definition is_complete (cfg : config) (len : nat) (fs : list outcome) : complete_res * nat :=
+  let '(res, n) := request cfg PListing len [] fs in
+  (match res with Ok _ => CTrue | Err e => if caught_by_is_complete e then CFalse else CRaise e end, n).
+
+(* mark_complete: create_array = PUT of the bucket with s3_create_bucket_ignored (409: it exists already) treated
+   as success, then PUT of the empty marker object.  One fault script for the whole call: every request consumes one
+   entry.  (result, bucket requests, marker requests) *)
+Definition mark_complete_with (ign : list Z) (cfg : config) (fs : list outcome) : result * nat * nat :=
+  let '(rb, nb) := request cfg PListing O ign fs in
+  match rb with
+  | Ok _ => let '(r, n) := request cfg PListing O [] (skipn nb fs) in (r, nb, n)
+  | Err e => (Err e, nb, O)
+  end.
+Definition mark_complete := mark_complete_with s3_create_bucket_ignored.
+(* SPEC of the bucket step: "the bucket exists already" (409) is not an error - and nothing else is overlooked *)
+Definition spec_mark_complete := mark_complete_with [409].
 
 (* =====================================================================================
    SPEC: the property, by counting faults
@@ -343,6 +384,16 @@ Definition spec_requests (fl : list Z) (len : nat) (b : retry) (fs : list outcom
 Definition spec_request (cfg : config) (len : nat) (fs : list outcome) : result * nat :=
   (spec_result (c_forcelist cfg) len (c_retry cfg) fs, spec_requests (c_forcelist cfg) len (c_retry cfg) fs).
 
+(* is_complete by the counting spec: present, absent (404, or the transient faults did not fit the budget), or the
+   permanent failure is passed on *)
+Definition spec_is_complete (cfg : config) (len : nat) (fs : list outcome) : complete_res :=
+  match spec_result (c_forcelist cfg) len (c_retry cfg) fs with
+  | Ok _ => CTrue
+  | Err NotFound => CFalse
+  | Err Glitch => CFalse
+  | Err e => CRaise e
+  end.
+
 (* 404 rule: a 404 on the object is a missing chunk only if the bucket is known to be, or is found to be, present and
    non-empty.  The property does not say how faults of the listing request itself are budgeted, so the spec takes the
    listing outcome (`listing`) as it comes and only fixes what is made of it. *)
@@ -388,7 +439,9 @@ Definition to_outcomes (x : sx) : list outcome := map to_outcome (to_list x).
 Definition to_config (x : sx) : config :=
   match x with
   | L [t; c; r; s; fl] => mkConfig (mkRetry (to_optZ t) (to_optZ c) (to_optZ r) (to_optZ s)) (to_Zs fl)
-  | L [I c; I r] => default_config c r
+  | L [I c; I r] => store_config (RPair c r)
+  | L [I n] => store_config (RInt n)
+  | L [] => default_store
   | _ => default_config 0 0
   end.
 Definition of_err (e : err) : Z :=
@@ -416,6 +469,22 @@ Definition wire_9 (x : sx) : sx :=
       let '(sres, sn) := spec_request cfg (Z.to_nat len) (to_outcomes fs) in
       L [match res with RdbOk d => L [I 0; I (Z.of_nat d)] | RdbNotFound => L [I 1; I 0] | RdbRaw => L [I 9; I 0] end;
          of_nat n; of_result sres; of_nat sn]
+  | L [I 4; cfg; I len; fs] =>        (* put_chunk: (model_result requests spec_result spec_requests) *)
+      let cfg := to_config cfg in
+      let '(res, n) := put_chunk cfg (Z.to_nat len) (to_outcomes fs) in
+      let '(sres, sn) := spec_request cfg (Z.to_nat len) (to_outcomes fs) in
+      L [of_result res; of_nat n; of_result sres; of_nat sn]
+  | L [I 5; cfg; I len; fs] =>        (* is_complete: (model (0 true | 1 false | 2 raise e) requests spec spec_requests) *)
+      let cfg := to_config cfg in
+      let fs := to_outcomes fs in
+      let len := Z.to_nat len in
+      let oc (c : complete_res) := match c with CTrue => L [I 0; I 0] | CFalse => L [I 1; I 0] | CRaise e => L [I 2; I (of_err e)] end in
+      let '(res, n) := is_complete cfg len fs in
+      L [oc res; of_nat n; oc (spec_is_complete cfg len fs); of_nat (spec_requests (c_forcelist cfg) len (c_retry cfg) fs)]
+  | L [I 6; cfg; fs] =>               (* mark_complete: (model_result bucket_requests marker_requests spec_result spec_bucket_requests spec_marker_requests) *)
+      let '(res, nb, n) := mark_complete (to_config cfg) (to_outcomes fs) in
+      let '(sres, snb, sn) := spec_mark_complete (to_config cfg) (to_outcomes fs) in
+      L [of_result res; of_nat nb; of_nat n; of_result sres; of_nat snb; of_nat sn]
   | L [I 3; cfg; segs; fs] =>
       let cfg := to_config cfg in
       let segs := to_nats segs in
